@@ -219,7 +219,7 @@ def _rules(ck, prog, cfg):
                 kid = prog.fns.get(cl.rv.get("n")) if cl.kind == "agg" else None
                 if kid is not None:
                     kc = [callee(t2) for _, t2 in kid.calls()]
-                    if kc and all(re.search(r"HashMap::<.*ReplicaId, std::string::String.*>::contains_key", c) for c in kc):
+                    if kc and all(re.search(r"HashMap::<.*>::contains_key(::<.*>)?$", c) for c in kc):
                         continue
             cut.append(nm)
         ck.check(src_ok and not cut, "R19.5", "route_selective:walks-every-owner" + _tag(cfg),
